@@ -1,19 +1,22 @@
-"""C07 (partial): bit-field packing - the clauses whose truth is in the shape of the code."""
+"""C07: bit-field packing - bit placement, neighbour preservation, overflow error and value mapping, by partitioned abstract interpretation."""
 import engine
 import bitio
 
 META = {
     "level": "other",
-    "trusted_base": ["rustc MIR construction", "mirfacts exporter"],
-    "explanation": "Decided: (B-guard) put and parse test 8*len(data) < offset+len (strict), the failing arm returns Err(BufferOverflow) and "
-                   "contains no store and no &mut call, every write is dominated by the passing arm; (B-cursor) the only cursor update is "
-                   "offset = offset + len, once, before Ok; (B-merge) the byte put stores is (old & !mask) | (mask & value) for every bit "
-                   "(truth table of the block's bitwise expression), parse never writes the buffer; (R-width) at every put/parse call site of "
-                   "the crate the width lies in [0|1, BITS(carrier)]; (R-kind) the 15 BitValue impls agree per kind up to the carrier width. "
-                   "NOT decided: that the per-byte mask/shift loop places value bit k at buffer bit offset+w-1-k for every (offset, w, value) "
-                   "and the two's-complement / sign-magnitude value mapping - that is a bit-precise statement over a data-dependent loop and "
-                   "needs a solver or exhaustive execution, outside static analysis.",
-    "assumptions": ["bit placement inside put/parse (mask and shift amounts) is assumed, not decided"],
+    "trusted_base": ["rustc MIR construction", "mirfacts exporter", "bitsem.py / signsem.py: the abstract interpreter (affine cursor domain, constant propagation, "
+                     "Boolean-function domain per bit, models of slice iterators and of the carrier's shift / or operators)",
+                     "the arithmetic step -(-v) = v, |v| < 2^(w-1) behind the sign-magnitude round trip (stated, not derived)"],
+    "explanation": "Decided by partitioned abstract interpretation of the MIR (nothing is executed; offset div 8, the value and the buffer stay symbolic): "
+                   "(B-sem) for every (offset mod 8) x (width 1..=W) x (carrier width W in 8,16,32,64,128) - 1984 partitions each for put and parse - "
+                   "put stores exactly the low w bits of sign_fix_rev(value), most significant first, at bits offset..offset+w, every other buffer bit keeps "
+                   "its value, the cursor advances by w, and Err(BufferOverflow) is returned exactly when 8*len < offset+w with nothing written; parse returns "
+                   "sign_fix(those w bits, zero-extended) without writing; every Assert terminator, carrier shift and buffer access on the way is decided. "
+                   "(S-sem) sign_fix / sign_fix_rev / u8_cast / val_cast of all 15 carriers, every width 1..=BITS (1488 partitions): unsigned = identity, "
+                   "two's complement = sign extension from bit w-1, sign-magnitude = sign bit w-1 plus magnitude |v| (negation is an uninterpreted vector). "
+                   "Template rules kept as cross-checks: (B-guard) strict bounds test and clean error arm, (B-cursor) single cursor update, (B-merge) "
+                   "masked merge, (R-width) 1 <= width <= BITS(carrier) at every put/parse call site of the crate, (R-kind) sibling agreement of the impls.",
+    "assumptions": ["byte index of the cursor below 2^58 (cursor invariant offset <= 8*len(data), P-pre)", "sign-magnitude round trip uses -(-v) = v for |v| < 2^(w-1)"],
 }
 
 
